@@ -35,7 +35,8 @@ REQUIRED = ["programs", "steps_checked", "timed_resumes", "select_timeouts",
             "tasks_raised", "timer_fires", "timers_cancelled", "quiescent_checks",
             "programs_natural_drive", "natural_select_timeouts",
             "nested_subtask_returns", "nested_subtask_raises",
-            "late_started_timers", "absolute_timers", "tasks_raised_non_exception"]
+            "late_started_timers", "absolute_timers", "tasks_raised_non_exception",
+            "select_with_non_list_collections"]
 TIMEOUT = {"quick": 1200, "thorough": 9000}
 
 _st = {}
@@ -182,7 +183,10 @@ def run_program (case, rep):
                        "task %s step %d: %.3f late" % (tid, k, clock.now - t0 - d)))
       elif kind == "sel_to":
         s = sock("%s/%d" % (tid, k))
-        v = yield rc.Select([s], [], [s], st[1])
+        # (descriptor collections as list / tuple / set, timeout positional)
+        shape = (list, tuple, frozenset)[(tid + k) % 3]
+        if shape is not list: rep.count("select_with_non_list_collections")
+        v = yield rc.Select(shape([s]), shape([]), shape([s]), st[1])
         enter(tid)
         rep.count("select_timeouts")
         if clock.now < t0 + st[1] - 1e-9:
@@ -198,7 +202,8 @@ def run_program (case, rep):
         nt[0] = True
         if kind == "sel_data":
           other = sock("%s/%d/quiet" % (tid, k))
-          v = yield rc.Select([other, s], [], [], st[2])
+          shape = (list, tuple)[(tid + k) % 2]
+          v = yield rc.Select(shape([other, s]), shape([]), shape([]), st[2])
           enter(tid)
           rep.count("select_ready")
           if v is None or list(v[0]) != [s] or v[1] or v[2]:
